@@ -24,18 +24,24 @@ SIZES = {"quick": dict(n_family=110, n_synth=30, cap=2000),
 NEG = float("-inf")
 
 
-def family(rng):
+def family(rng, tight=False):
     """Solvable-by-construction scenarios in the cost/value domain: random
     trees rooted at the internet (chains, stars, sensitive leaves under a
-    common parent), occasional chords and second entry points."""
-    nsub = rng.randint(2, 6)
+    common parent), occasional chords and second entry points.
+    tight: every cost 1, every host on the way worth 1, sensitive hosts in
+    the leaves of a branching tree - the advertised bound is then met exactly
+    by the best episode (each hop pays for itself, each scan is a loss), so
+    anything that saves the attacker a single action exceeds it."""
+    nsub = rng.randint(4, 7) if tight else rng.randint(2, 6)
     sizes = [1] * nsub
-    for _ in range(rng.randint(0, 3)):
+    for _ in range(0 if tight else rng.randint(0, 3)):
         if sum(sizes) < 9:
             sizes[rng.randrange(nsub)] += 1
     N = nsub + 1
     topo = [[1 if i == j else 0 for j in range(N)] for i in range(N)]
     shape = rng.choice(["tree", "tree", "star", "chain"])
+    if tight:
+        shape = "tree"
     for b in range(2, N):
         if shape == "chain":
             a = b - 1
@@ -45,17 +51,19 @@ def family(rng):
             a = rng.randint(1, b - 1)
         topo[a][b] = topo[b][a] = 1
     topo[0][1] = topo[1][0] = 1
-    if rng.random() < 0.2 and nsub > 2:
+    if rng.random() < 0.2 and nsub > 2 and not tight:
         p = rng.randint(2, nsub)
         topo[0][p] = topo[p][0] = 1
-    if rng.random() < 0.2 and nsub > 2:
+    if rng.random() < 0.2 and nsub > 2 and not tight:
         a, b = rng.sample(range(1, N), 2)
         topo[a][b] = topo[b][a] = 1
     srvs = ["ssh", "http"][:rng.randint(1, 2)]
     procs = ["tomcat"]
     oss = ["linux"]
     variant = rng.choice(["root", "root", "user+pe", "both"])
-    c = lambda: rng.choice([1, 1, 2])       # noqa
+    c = (lambda: 1) if tight else (lambda: rng.choice([1, 1, 2]))   # noqa
+    if tight:
+        variant = "root"
     exploits, privescs = {}, {}
     if variant in ("root", "both"):
         exploits["e_root"] = dict(service=srvs[0], os=None, prob=1.0,
@@ -75,6 +83,10 @@ def family(rng):
                 n_sens - 2, len([a for a in far if a[0] != s]))))
     else:
         sens = rng.sample(far, n_sens)
+    if tight:
+        leaves = [(s, 0) for s in range(2, N)
+                  if sum(topo[s][b] for b in range(N) if b != s) == 1]
+        sens = leaves or sens
     sensitive = {a: rng.choice([10, 100]) for a in sens}
     route = rng.choice(["yaml", "dict"])
     hosts = {}
@@ -85,16 +97,17 @@ def family(rng):
         hosts[a] = dict(os="linux", services=list(srvs),
                         processes=list(procs),
                         value=0.0 if a in sensitive else
-                        rng.choice([-5, 0, 0.5, 1, 1]),
+                        (1 if tight else rng.choice([-5, 0, 0.5, 1, 1])),
                         discovery_value=rng.choice([0, 1])
-                        if route == "dict" else 0.0, firewall={})
+                        if route == "dict" and not tight else 0.0,
+                        firewall={})
     firewall = {}
     for a in range(N):
         for b in range(N):
             if a != b and topo[a][b] == 1:
                 if b == 0:
                     firewall[(a, b)] = []
-                elif rng.random() < 0.6:
+                elif tight or rng.random() < 0.6:
                     firewall[(a, b)] = list(srvs)
                 else:
                     firewall[(a, b)] = [rng.choice(
@@ -276,6 +289,8 @@ def case(acc, sp, route, cap, label):
             wit)
     if abs(best - bound) < 1e-6:
         acc.count("bound_attained_exactly")
+        if branching:
+            acc.count("bound_attained_exactly_on_branching_scenarios")
     # ---- a later episode on the same environment object: play the best
     # episode with step(), reset, and look again (the exploration above is a
     # function of the reset state, so it is only repeated if that differs)
@@ -548,9 +563,12 @@ def run(prop, tier, seed, shard, nshards):
         rng = corpus.case_rng(seed, prop, ctype, cid)
         try:
             if ctype == "family":
-                sp = family(rng)
+                tight = cid % 4 == 3
+                sp = family(rng, tight=tight)
                 case(acc, sp, sp.origin.split(":")[1], z["cap"],
                      f"family:{cid}")
+                if tight:
+                    acc.count("family_cases_with_tight_bound")
             elif ctype == "synth":
                 sp = synth.synth(rng, "quick", max_hosts=7,
                                  deterministic=True, connected=True,
